@@ -14,7 +14,7 @@ def seeded():
         m = json.loads(d.read_text())
         c = m.get("confirmed", {})
         res = m.get("result", {})
-        chk = ", ".join(f"{k}: exit {v['exit']}, {v['violation_lines']} VIOLATION lines" for k, v in res.items())
+        chk = ", ".join(f"{k}: exit {v['exit']}, {v['violation_lines']} VIOLATION lines" for k, v in res.items() if 'exit' in v)
         need = (m.get("needs_to_manifest") or "").replace("|", "/").replace("\n", " ")
         need = need[:230] + ("…" if len(need) > 230 else "")
         rows.append(f"| `{d.parent.name}` {(m.get('title') or '')[:90]} | {m['property']} | {need} | {'silent' if c.get('suite_ok') else ('not re-run' if c.get('suite_ok') is None else 'NOTICED')} | "
